@@ -44,7 +44,7 @@ type Obs struct {
 	Skip       bool   // case was not executable (counted separately, never a failure)
 }
 
-func (o *Obs) Class(c string)         { o.Classes = append(o.Classes, c) }
+func (o *Obs) Class(c string)            { o.Classes = append(o.Classes, c) }
 func (o *Obs) Classf(f string, a ...any) { o.Classes = append(o.Classes, fmt.Sprintf(f, a...)) }
 
 type knownEntry struct {
@@ -102,7 +102,7 @@ var (
 	started   = time.Now()
 	outDir    string
 	rootDir   string
-	Tier      = "quick"
+	Tier            = "quick"
 	Seed      int64 = 1
 	Shard     int
 	NShards   = 1
